@@ -55,6 +55,8 @@ def num_grid(rng, h, w, blank, extra, density=None):
 def ids_equal_partition(a, b):
     """two id grids describe the same partition (ids up to renaming)"""
     m1, m2 = {}, {}
+    if len(a) != len(b) or any(len(ra) != len(rb) for ra, rb in zip(a, b)):
+        return False
     for ra, rb in zip(a, b):
         for x, y in zip(ra, rb):
             if m1.setdefault(x, y) != y or m2.setdefault(y, x) != x:
@@ -236,7 +238,8 @@ def heyawake_case(ctx, rng):
             j.fail("roundtrip", f"decode returned {back!r}", url=url)
         else:
             bh, bw, (brooms, bclues) = back
-            j.same("roundtrip", (bh, bw, sorted((sorted(r), c) for r, c in zip(brooms, bclues))), (h, w, want), url)
+            j.same("roundtrip", (bh, bw, len(brooms), len(bclues), sorted((sorted(r), c) for r, c in zip(brooms, bclues))),
+                   (h, w, len(rooms), len(clues), want), url)
     rest = j.head(url, "heyawake", h, w)
     if rest is not None:
         body = "/".join(rest)
